@@ -266,8 +266,30 @@ to itself, and the length is within the declared bounds. -/
 def Conforms (env : Env) (l : TList) : Prop :=
   (∀ x ∈ l.items, apply env l.elem false x = .ok x) ∧ sizeOk l.items.length l.mn l.mx = true
 
-/-- Structural equality of values (for the executable conformance test of the drivers). -/
-def sameB (x y : Val) : Bool := Val.pyEq x y && (x.ty == y.ty)
+mutual
+  /-- Structural equality of values, types included at every depth (for the executable
+  conformance test of the drivers: "maps to itself"). -/
+  def sameB : Val → Val → Bool
+    | .missing, .missing => true
+    | .none, .none => true
+    | .bool a, .bool b => a == b
+    | .int a, .int b => a == b
+    | .float a, .float b => a.m == b.m && a.e == b.e
+    | .str a, .str b => a == b
+    | .list a, .list b => sameL a b
+    | .tuple a, .tuple b => sameL a b
+    | .dict a, .dict b => sameK a b
+    | .obj c u p, .obj c' u' p' => c == c' && u == u' && p == p'
+    | _, _ => false
+  def sameL : List Val → List Val → Bool
+    | [], [] => true
+    | x :: xs, y :: ys => sameB x y && sameL xs ys
+    | _, _ => false
+  def sameK : List (String × Val) → List (String × Val) → Bool
+    | [], [] => true
+    | (k, x) :: xs, (l, y) :: ys => k == l && sameB x y && sameK xs ys
+    | _, _ => false
+end
 
 def conformsB (env : Env) (l : TList) : Bool :=
   l.items.all (fun x => match apply env l.elem false x with
@@ -393,6 +415,112 @@ def dictStep (env : Env) (p : Bool) (pb : Val → Bool) (d : TDict) : DictOp →
     | .ok kvs => ({ d with kvs := kvs }, none)
     | .error e => (d, some (ofErr e))
   | .popitem => (d, some .value)                                          -- 780-782
+
+/-! ### Nested key paths (`rebind({'z.y': v, 'w[0]': v, …})`)
+
+`_set_item_of_current_tree` (base.py 1201-1224) resolves the parent of the path inside the tree
+and calls THAT node's write primitive: the write is validated by the typed descendant's own spec
+(the field / element spec it was bound to when it was stored), and no ancestor is re-validated.
+Modelled for descendants that are typed dicts (with schema) and typed lists, also behind a Union
+field (the candidate of the value's type); `allow_partial` off. -/
+
+inductive PKey where
+  | key (k : String)
+  | idx (i : Nat)
+
+/-- The candidate of a Union a container value was bound to (the first one of its type). -/
+def unionPick (env : Env) (v : Val) : List Spec → Option Spec
+  | [] => none
+  | c :: cs =>
+    match vt c with
+    | some ts => if instOf env v ts then some c else unionPick env v cs
+    | none => unionPick env v cs
+
+/-- The spec a stored container value is bound to, given the spec of its field / element. -/
+def boundSpec (env : Env) (s : Spec) (v : Val) : Spec :=
+  match s with
+  | .union cands _ => (unionPick env v cands).getD s
+  | s => s
+
+/-- Write `a` at `path` below the container value `v` whose field / element spec is `s`. -/
+def nestedSet (env : Env) (pb : Val → Bool) : Spec → Val → List PKey → Bool → Val → Except E Val
+  | _, _, [], _, _ => .error .key
+  | s, v, [last], ins, a =>
+    match boundSpec env s v, v, last with
+    | .dict (some fields) _, .dict kvs, .key k =>
+      match dictPrim env false pb ⟨fields, kvs⟩ k (.plain a) with
+      | (d', none) => .ok (.dict d'.kvs)
+      | (_, some e) => .error e
+    | .list elem mn mx _, .list items, .idx i =>
+      match listPrim env ⟨elem, mn, mx, items⟩ i ins a with
+      | (l', none) => .ok (.list l'.items)
+      | (_, some e) => .error e
+    -- a container stored under `Any` / a schema-less `Dict` is untyped: nothing is validated
+    | .any _, .dict kvs, .key k => .ok (.dict (if a.isMissing then eraseKey kvs k else setKey kvs k a))
+    | .dict none _, .dict kvs, .key k => .ok (.dict (if a.isMissing then eraseKey kvs k else setKey kvs k a))
+    | .any _, .list items, .idx i =>
+      .ok (.list (if decide (i ≥ items.length) then (if a.isMissing then items else items ++ [a])
+                  else if ins then insertAt items i a else items.set i a))
+    | _, _, _ => .error .key
+  | s, v, hd :: rest, ins, a =>
+    match boundSpec env s v, v, hd with
+    | .dict (some fields) _, .dict kvs, .key k =>
+      match lookup kvs k, getField env fields k with
+      | some c, some f =>
+        match nestedSet env pb f.value c rest ins a with
+        | .ok c' => .ok (.dict (setKey kvs k c'))
+        | .error e => .error e
+      | _, _ => .error .key                       -- "Path … does not exist"
+    | .list elem _ _ _, .list items, .idx i =>
+      match items[i]? with
+      | some c =>
+        match nestedSet env pb elem c rest ins a with
+        | .ok c' => .ok (.list (items.set i c'))
+        | .error e => .error e
+      | none => .error .key
+    | .any f, .dict kvs, .key k =>
+      match lookup kvs k with
+      | some c =>
+        match nestedSet env pb (.any f) c rest ins a with
+        | .ok c' => .ok (.dict (setKey kvs k c'))
+        | .error e => .error e
+      | none => .error .key
+    | .dict none _, .dict kvs, .key k =>
+      match lookup kvs k with
+      | some c =>
+        match nestedSet env pb (.any ⟨true, .missing, false⟩) c rest ins a with
+        | .ok c' => .ok (.dict (setKey kvs k c'))
+        | .error e => .error e
+      | none => .error .key
+    | .any f, .list items, .idx i =>
+      match items[i]? with
+      | some c =>
+        match nestedSet env pb (.any f) c rest ins a with
+        | .ok c' => .ok (.list (items.set i c'))
+        | .error e => .error e
+      | none => .error .key
+    | _, _, _ => .error .key
+
+/-- One entry of a rebind: a direct key goes to the write primitive, a longer path to the typed
+descendant it reaches; the ancestors are not re-validated. -/
+def pathWrite (env : Env) (pb : Val → Bool) (d : TDict) (k : String) (rest : List PKey) (ins : Bool)
+    (a : Val) : TDict × Option E :=
+  match rest with
+  | [] => dictPrim env false pb d k (.plain a)
+  | rest =>
+    match lookup d.kvs k, getField env d.fields k with
+    | some c, some f =>
+      match nestedSet env pb f.value c rest ins a with
+      | .ok c' => ({ d with kvs := setKey d.kvs k c' }, none)
+      | .error e => (d, some e)
+    | _, _ => (d, some .key)
+
+def pathBatch (env : Env) (pb : Val → Bool) (d : TDict) : List (String × List PKey × Bool × Val) → TDict × Option E
+  | [] => (d, none)
+  | (k, rest, ins, a) :: ws =>
+    match pathWrite env pb d k rest ins a with
+    | (d', none) => pathBatch env pb d' ws
+    | (d', some e) => (d', some e)
 
 /-- `pg.Dict(value, value_spec=Dict(fields), allow_partial=p)`. -/
 def constructDict (env : Env) (p : Bool) (fields : List Field) (kvs : List (String × Val)) : Except E TDict :=
